@@ -379,10 +379,18 @@ class Interp:
             lo, hi = max(lo, 0), min(hi, n - 1)
             if lo > hi:
                 raise Infeasible()
-            if lo == hi:
-                return v.elems[lo]
-            r = self.vjoin_many(st, list(v.elems[lo:hi + 1]))
             nm = getattr(v, 'name', None)
+            if lo == hi:
+                e = v.elems[lo]
+                if nm is not None and isinstance(e, VSlice) and e.elem[0] == 'cbytes':
+                    return VSlice(('tbl', nm, iv.form.key()), Form.const(0), e.len, e.elem, 'u8')
+                return e
+            if nm is not None and isinstance(v.elems[lo], VSlice) and v.elems[lo].elem[0] == 'cbytes':
+                # a string read from a named constant table: remember the table and the index expression
+                lens = [len(e.elem[1]) for e in v.elems[lo:hi + 1]]
+                ln = Form.const(lens[0]) if min(lens) == max(lens) else self.fresh_int(st, 'usize', 'slen', min(lens), max(lens)).form
+                return VSlice(('tbl', nm, iv.form.key()), Form.const(0), ln, ('bytes', 0, 255), 'u8')
+            r = self.vjoin_many(st, list(v.elems[lo:hi + 1]))
             if nm is not None and isinstance(r, VInt) and len(r.form.terms) == 1 and r.form.c == 0:
                 # remember which table and index expression a joined lookup came from
                 SYMTAB.syms[r.form.terms[0][0]].data = ('tbl', nm, iv.form, lo, hi)
@@ -943,6 +951,10 @@ class Interp:
                     if op == 'Div':
                         return q.neg()
                     return a.form.sub(q.scale(-c))
+                if a.form.c % c == 0 and all(k % c == 0 for _, k in a.form.terms):
+                    # every value of the dividend is a multiple of c: the division is exact
+                    qf = Form(a.form.c // c, tuple((s_, k // c) for s_, k in a.form.terms))
+                    return qf if op == 'Div' else Form.const(0)
                 la, ha = n.rng(a.form)
                 q = SYMTAB.div(a.form, c, tdiv(la, c), tdiv(ha, c))
                 if tdiv(la, c) > n.slo(q):
@@ -1789,5 +1801,11 @@ class Interp:
         body = self.facts.body(key)
         st = State()
         args = self.spec.root_args(self, st, key, body, variant)
-        res = self.call_local(st, key, args)
+        saved = self.loop_mode
+        if variant is not None and variant.startswith('pic:'):
+            self.loop_mode = {}       # concrete pictures: the field loop is iterated exactly (no join)
+        try:
+            res = self.call_local(st, key, args)
+        finally:
+            self.loop_mode = saved
         return st, args, res
